@@ -169,9 +169,9 @@ type c01SqlInst struct {
 	ua   int
 	stmt StmtSession
 	// per op, consulted by the wrapped connection provider
-	provErr    error
-	provPanics bool
-	onProv     func()
+	provErr error
+	unwind  func()
+	onProv  func()
 }
 
 func c01UA(name string) int {
@@ -186,6 +186,17 @@ func c01UA(name string) int {
 	panic("verif c01: bad sqlx instance " + name)
 }
 
+// c01SqlVariants: the other public entry points that reach the same breaker call as the base site.
+var c01SqlVariants = map[string][]string{
+	"sqlexec":      {"nc"},
+	"sqlprep":      {"nc"},
+	"sqltx":        {"nc"},
+	"sqlquery":     {"nc", "p", "pnc"},
+	"sqlqueryrows": {"nc", "p", "pnc"},
+	"sqlstexec":    {"nc"},
+	"sqlstquery":   {"nc", "p", "pnc", "rows", "rowsnc", "rowsp", "rowspnc"},
+}
+
 func TestVerifC01Sqlx(t *testing.T) {
 	good := []string{"nil", "norows", "wnorows", "txdone", "wtxdone", "canceled", "wcanceled", "accerr", "waccerr"}
 	bad := []string{"other", "wother", "deadline", "wdeadline", "brkopen", "wbrkopen", "custom", "custom2"}
@@ -195,11 +206,26 @@ func TestVerifC01Sqlx(t *testing.T) {
 	names := []string{"p", "u", "v"}
 	fix := func(r *verifh.Rng, c *verifc01.Call) {
 		c.UserAcc = c01UA(c.Name)
-		stmtSite := c.Site == "sqlstexec" || c.Site == "sqlstquery"
+		// the delegating entry points: ~nc = the variant without a context parameter (forwards context.Background()),
+		// ~p = the Partial variant (another row scanner, the same breaker call), ~pnc = both
+		if r.Chance(1, 3) {
+			vs := c01SqlVariants[c.Site]
+			if len(vs) > 0 {
+				v := vs[r.Intn(len(vs))]
+				if strings.HasSuffix(v, "nc") {
+					c.Ctx = "none"
+				}
+				c.Site += "~" + v
+			}
+		}
+		if c.Ctx == "none" && !strings.HasSuffix(c.Site, "nc") {
+			c.Ctx = "live"
+		}
+		stmtSite := strings.HasPrefix(c.Site, "sqlstexec") || strings.HasPrefix(c.Site, "sqlstquery")
 		if !c.ScanFail {
 			c.Ignored = stmtSite || r.Chance(1, 2) // driver stage vs connection provider
 		}
-		if c.Site == "sqltx" && c.Class != "nil" && !c.ScanFail && r.Chance(1, 3) {
+		if strings.HasPrefix(c.Site, "sqltx") && c.Class != "nil" && !c.ScanFail && r.Chance(1, 3) {
 			c.ScanFail = true // the transaction function fails
 			c.Ignored = false
 		}
@@ -213,13 +239,13 @@ func TestVerifC01Sqlx(t *testing.T) {
 	}
 	rowsGood := []string{"canceled", "wcanceled", "other", "wother", "conv", "accerr", "brkopen", "custom2"}
 	specs := []verifc01.SiteSpec{
-		{Site: "sqlquery", Good: good, Bad: bad, ScanGood: scanGood, ScanBad: scanBad, Names: names, Fix: fix},
-		{Site: "sqlexec", Good: good, Bad: bad, Names: names, Fix: fix},
-		{Site: "sqlstquery", Good: good, Bad: bad, ScanGood: scanGood, ScanBad: scanBad, Names: names, Fix: fix, Setup: setup},
-		{Site: "sqltx", Good: good, Bad: bad, Names: names, Fix: fix},
-		{Site: "sqlstexec", Good: good, Bad: bad, Names: names, Fix: fix, Setup: setup},
-		{Site: "sqlprep", Good: good, Bad: bad, Names: names, Fix: fix},
-		{Site: "sqlqueryrows", Good: good, Bad: bad, ScanGood: rowsGood, ScanBad: scanBad, Names: names, Fix: fix},
+		{Site: "sqlquery", Good: good, Bad: bad, ScanGood: scanGood, ScanBad: scanBad, Names: names, Fix: fix, NoGoexit: true, NoCancelMid: true},
+		{Site: "sqlexec", Good: good, Bad: bad, Names: names, Fix: fix, NoGoexit: true, NoCancelMid: true},
+		{Site: "sqlstquery", Good: good, Bad: bad, ScanGood: scanGood, ScanBad: scanBad, Names: names, Fix: fix, NoGoexit: true, NoCancelMid: true, Setup: setup},
+		{Site: "sqltx", Good: good, Bad: bad, Names: names, Fix: fix, NoGoexit: true, NoCancelMid: true},
+		{Site: "sqlstexec", Good: good, Bad: bad, Names: names, Fix: fix, NoGoexit: true, NoCancelMid: true, Setup: setup},
+		{Site: "sqlprep", Good: good, Bad: bad, Names: names, Fix: fix, NoGoexit: true, NoCancelMid: true},
+		{Site: "sqlqueryrows", Good: good, Bad: bad, ScanGood: rowsGood, ScanBad: scanBad, Names: names, Fix: fix, NoGoexit: true, NoCancelMid: true},
 	}
 	verifc01.Run(t, verifc01.Gen(specs, true), func(named bool) verifc01.Env {
 		if !named {
@@ -249,8 +275,8 @@ func TestVerifC01Sqlx(t *testing.T) {
 				if in.onProv != nil {
 					in.onProv()
 				}
-				if in.provPanics {
-					panic(verifc01.PanicValue)
+				if in.unwind != nil {
+					in.unwind()
 				}
 				if in.provErr != nil {
 					return nil, in.provErr
@@ -264,6 +290,22 @@ func TestVerifC01Sqlx(t *testing.T) {
 			Breaker: func(name string) breaker.Breaker { return get(name).conn.brk },
 			Invoke: func(c verifc01.Call, ctx context.Context, onReq func()) string {
 				in := get(c.Name)
+				variant := ""
+				if i := strings.IndexByte(c.Site, '~'); i >= 0 {
+					c.Site, variant = c.Site[:i], c.Site[i+1:]
+				}
+				if variant != "" {
+					ok := false
+					for _, v := range c01SqlVariants[c.Site] {
+						ok = ok || v == variant
+					}
+					if !ok {
+						panic("verif c01: bad sqlx variant " + variant)
+					}
+				}
+				if strings.HasSuffix(variant, "nc") != (c.Ctx == "none") {
+					panic("verif c01: ctx=none exactly at the variants without a context parameter")
+				}
 				if c.UserAcc != in.ua {
 					panic("verif c01: ua= does not match the instance")
 				}
@@ -287,8 +329,8 @@ func TestVerifC01Sqlx(t *testing.T) {
 				sc := &c01Script{}
 				c01Cur = sc
 				defer func() { c01Cur = &c01Script{} }()
-				in.provErr, in.provPanics, in.onProv = nil, false, nil
-				defer func() { in.provErr, in.provPanics, in.onProv = nil, false, nil }()
+				in.provErr, in.unwind, in.onProv = nil, nil, nil
+				defer func() { in.provErr, in.unwind, in.onProv = nil, nil, nil }()
 				switch c.Site {
 				case "sqlexec", "sqlstexec":
 					sc.term = "exec"
@@ -304,26 +346,24 @@ func TestVerifC01Sqlx(t *testing.T) {
 				if stmtSite {
 					sc.onStmt = func() {
 						count()
-						if c.Panics {
-							panic(verifc01.PanicValue)
-						}
+						c.Unwind()
 					}
 				} else {
 					in.onProv = count
-					in.provPanics = c.Panics
+					in.unwind = c.Unwind
 				}
 				sc.rows = [][]driver.Value{{int64(7)}}
 				var fnErr error
 				switch {
 				case c.ScanFail && c.Site == "sqltx":
 					fnErr = want
-				case c.ScanFail && c.Class == "norows" && c.Site != "sqlqueryrows":
+				case c.ScanFail && c.Class == "norows" && c.Site != "sqlqueryrows" && !strings.HasPrefix(variant, "rows"):
 					sc.rows = nil // unmarshalRow turns the empty result into ErrNotFound (= sql.ErrNoRows)
 				case c.ScanFail && c.Class == "conv":
 					sc.rows = [][]driver.Value{{"not-a-number"}}
 				case c.ScanFail && c.Class == "nil":
 				case c.ScanFail:
-					if c.Site == "sqlqueryrows" {
+					if c.Site == "sqlqueryrows" || strings.HasPrefix(variant, "rows") {
 						sc.rows = [][]driver.Value{{int64(7)}} // the error comes after a good first row
 					} else {
 						sc.rows = nil
@@ -335,46 +375,117 @@ func TestVerifC01Sqlx(t *testing.T) {
 					in.provErr = want
 				}
 				var err error
-				switch c.Site {
-				case "sqlexec":
+				type row struct {
+					N int `db:"n"`
+				}
+				var n int
+				var ns []int
+				var pr row
+				var prs []row
+				checkOne := func(got int) string {
+					if err == nil && got != 7 {
+						return "other"
+					}
+					return ""
+				}
+				checkMany := func(got []int) string {
+					if err == nil && (len(got) != 1 || got[0] != 7) {
+						return "other"
+					}
+					return ""
+				}
+				bad := ""
+				switch c.Site + "~" + variant {
+				case "sqlexec~":
 					_, err = in.conn.ExecCtx(ctx, "c01")
-				case "sqlprep":
+				case "sqlexec~nc":
+					_, err = in.conn.Exec("c01")
+				case "sqlprep~", "sqlprep~nc":
 					var st StmtSession
-					st, err = in.conn.PrepareCtx(ctx, "c01")
+					if variant == "nc" {
+						st, err = in.conn.Prepare("c01")
+					} else {
+						st, err = in.conn.PrepareCtx(ctx, "c01")
+					}
 					if err == nil {
 						if st == nil {
 							return "other"
 						}
 						in.stmt = st
 					}
-				case "sqltx":
+				case "sqltx~":
 					err = in.conn.TransactCtx(ctx, func(context.Context, Session) error { return fnErr })
-				case "sqlquery":
-					var n int
+				case "sqltx~nc":
+					err = in.conn.Transact(func(Session) error { return fnErr })
+				case "sqlquery~":
 					err = in.conn.QueryRowCtx(ctx, &n, "c01")
-					if err == nil && n != 7 {
-						return "other"
-					}
-				case "sqlqueryrows":
-					var ns []int
+					bad = checkOne(n)
+				case "sqlquery~nc":
+					err = in.conn.QueryRow(&n, "c01")
+					bad = checkOne(n)
+				case "sqlquery~p":
+					err = in.conn.QueryRowPartialCtx(ctx, &pr, "c01")
+					bad = checkOne(pr.N)
+				case "sqlquery~pnc":
+					err = in.conn.QueryRowPartial(&pr, "c01")
+					bad = checkOne(pr.N)
+				case "sqlqueryrows~":
 					err = in.conn.QueryRowsCtx(ctx, &ns, "c01")
-					if err == nil && (len(ns) != 1 || ns[0] != 7) {
-						return "other"
+					bad = checkMany(ns)
+				case "sqlqueryrows~nc":
+					err = in.conn.QueryRows(&ns, "c01")
+					bad = checkMany(ns)
+				case "sqlqueryrows~p", "sqlqueryrows~pnc":
+					if variant == "p" {
+						err = in.conn.QueryRowsPartialCtx(ctx, &prs, "c01")
+					} else {
+						err = in.conn.QueryRowsPartial(&prs, "c01")
 					}
-				case "sqlstexec":
+					if err == nil && (len(prs) != 1 || prs[0].N != 7) {
+						bad = "other"
+					}
+				default:
 					if in.stmt == nil {
 						panic(verifc01.SkipPrefix + " no statement prepared on this connection yet")
 					}
-					_, err = in.stmt.ExecCtx(ctx)
-				case "sqlstquery":
-					if in.stmt == nil {
-						panic(verifc01.SkipPrefix + " no statement prepared on this connection yet")
+					switch c.Site + "~" + variant {
+					case "sqlstexec~":
+						_, err = in.stmt.ExecCtx(ctx)
+					case "sqlstexec~nc":
+						_, err = in.stmt.Exec()
+					case "sqlstquery~":
+						err = in.stmt.QueryRowCtx(ctx, &n)
+						bad = checkOne(n)
+					case "sqlstquery~nc":
+						err = in.stmt.QueryRow(&n)
+						bad = checkOne(n)
+					case "sqlstquery~p":
+						err = in.stmt.QueryRowPartialCtx(ctx, &pr)
+						bad = checkOne(pr.N)
+					case "sqlstquery~pnc":
+						err = in.stmt.QueryRowPartial(&pr)
+						bad = checkOne(pr.N)
+					case "sqlstquery~rows":
+						err = in.stmt.QueryRowsCtx(ctx, &ns)
+						bad = checkMany(ns)
+					case "sqlstquery~rowsnc":
+						err = in.stmt.QueryRows(&ns)
+						bad = checkMany(ns)
+					case "sqlstquery~rowsp", "sqlstquery~rowspnc":
+						if variant == "rowsp" {
+							err = in.stmt.QueryRowsPartialCtx(ctx, &prs)
+						} else {
+							err = in.stmt.QueryRowsPartial(&prs)
+						}
+						if err == nil && (len(prs) != 1 || prs[0].N != 7) {
+							bad = "other"
+						}
+					default:
+						panic("verif c01: bad site " + c.Site + "~" + variant)
 					}
-					var n int
-					err = in.stmt.QueryRowCtx(ctx, &n)
-					if err == nil && n != 7 {
-						return "other"
-					}
+				}
+				if bad != "" {
+					return bad
 				}
 				switch {
 				case !ran && ctx.Err() != nil && err == ctx.Err():
@@ -385,7 +496,7 @@ func TestVerifC01Sqlx(t *testing.T) {
 					if err != nil && strings.Contains(err.Error(), "converting") {
 						return "same"
 					}
-				case ran && c.ScanFail && c.Class == "norows" && c.Site != "sqltx":
+				case ran && c.ScanFail && c.Class == "norows" && c.Site != "sqltx" && !strings.HasPrefix(variant, "rows"):
 					if err == ErrNotFound {
 						return "same"
 					}
